@@ -41,7 +41,7 @@ pub(crate) fn simple_selectors(
     {
         compound
     } else {
-        todo!()
+        return Err(("$selector: expected selector.", args.span()).into());
     };
 
     Ok(Value::List(
